@@ -704,6 +704,9 @@ pub struct OsOpaqueIpcChannel {
 
 impl Drop for OsOpaqueIpcChannel {
     fn drop(&mut self) {
+        #[cfg(ipc_channel_verif)]
+        #[allow(unused_imports)]
+        use crate::verif::sys as libc;
         // Make sure we don't leak!
         //
         // The `OsOpaqueIpcChannel` objects are normally used,
